@@ -382,6 +382,13 @@ static void close_file(FILE *out, char *path) {
     fclose(out);
 }
 
+// Write a buffer to a file, reporting a write error.
+static void write_file(char *path, char *buf, size_t len) {
+  FILE *out = open_file(path);
+  fwrite(buf, len, 1, out);
+  close_file(out, path);
+}
+
 static bool endswith(char *p, char *q) {
   int len1 = strlen(p);
   int len2 = strlen(q);
@@ -513,18 +520,17 @@ static bool in_std_include_path(char *path) {
 // If -M options is given, the compiler write a list of input files to
 // stdout in a format that "make" command can read. This feature is
 // used to automate file dependency management.
-static void print_dependencies(void) {
-  char *path;
+static char *dependency_path(void) {
   if (opt_MF)
-    path = opt_MF;
-  else if (opt_MD)
-    path = replace_extn(opt_o ? opt_o : base_file, ".d");
-  else if (opt_o)
-    path = opt_o;
-  else
-    path = "-";
+    return opt_MF;
+  if (opt_MD)
+    return replace_extn(opt_o ? opt_o : base_file, ".d");
+  if (opt_o)
+    return opt_o;
+  return "-";
+}
 
-  FILE *out = open_file(path);
+static void print_dependencies(FILE *out) {
   if (opt_MT)
     fprintf(out, "%s:", opt_MT);
   else
@@ -592,16 +598,26 @@ static void cc1(void) {
   tok = append_tokens(tok, tok2);
   tok = preprocess(tok);
 
-  // If -M or -MD are given, print file dependencies.
+  // If -M or -MD are given, print file dependencies. With -MD the list
+  // is collected now but written only after the translation unit has
+  // been compiled, so that a failing unit leaves no output behind.
+  char *deps = NULL;
+  size_t deps_len = 0;
   if (opt_M || opt_MD) {
-    print_dependencies();
-    if (opt_M)
+    FILE *deps_buf = open_memstream(&deps, &deps_len);
+    print_dependencies(deps_buf);
+    fclose(deps_buf);
+    if (opt_M) {
+      write_file(dependency_path(), deps, deps_len);
       return;
+    }
   }
 
   // If -E is given, print out preprocessed C code as a result.
   if (opt_E) {
     print_tokens(tok);
+    if (opt_MD)
+      write_file(dependency_path(), deps, deps_len);
     return;
   }
 
@@ -626,9 +642,9 @@ static void cc1(void) {
   fclose(output_buf);
 
   // Write the asembly text to a file.
-  FILE *out = open_file(output_file);
-  fwrite(buf, buflen, 1, out);
-  close_file(out, output_file);
+  write_file(output_file, buf, buflen);
+  if (opt_MD)
+    write_file(dependency_path(), deps, deps_len);
 }
 
 static void assemble(char *input, char *output) {
